@@ -431,12 +431,28 @@ func genC03(r *Run) {
 				}
 			}
 		}
+		// fields that are themselves dictionary words, with and without their separator (a key without a value)
+		var short []string
+		for w := range seen {
+			if len(w) <= 6 {
+				short = append(short, strings.TrimRight(w, ":;-#/ "))
+			}
+		}
+		sort.Strings(short)
+		for _, a := range short {
+			for _, b := range short {
+				if a == "" || b == "" {
+					continue
+				}
+				vendorStrings = append(vendorStrings, a+":1;"+b, a+";"+b+":1", a+":"+b, a, a+";")
+			}
+		}
 		r.Count(fmt.Sprintf("vendor-strings=%d", len(vendorStrings)))
 		for i, d := range vendorStrings {
 			if len(d) > 200 {
 				continue
 			}
-			ent := uint32([]int{0, 1271, 30065, 33049, 2636, 6027}[i%6])
+			ent := uint32([]int{0, 1271, 30065, 33049, 2636, 6027, 9}[i%7])
 			b := []byte(d)
 			v6try(append([]byte{1, 1, 2, 3}, tlvb(16, append(w32(ent), append(w16(len(b)), b...)...))...))
 			v6try(append([]byte{1, 1, 2, 3}, tlvb(17, append(w32(ent), tlvb(uint16(1+i%3), b)...))...))
@@ -447,7 +463,7 @@ func genC03(r *Run) {
 			if i%3 == 0 {
 				opts[43] = b
 			}
-			if i%5 == 0 && len(b) < 200 {
+			if (i%5 == 0 || len(b) < 16) && len(b) < 200 {
 				opts[124] = append(append(w32(ent), byte(len(b))), b...)
 				opts[125] = append(append(w32(ent), byte(len(b)+2)), append([]byte{1, byte(len(b))}, b...)...)
 			}
